@@ -395,17 +395,19 @@ type readCfg struct {
 	ZeroReads bool
 	EOFData   bool
 	Parsed    bool // header parser on (fasta/fastq)
+	Churn     int  // buffers used and recycled by earlier users of the slice pool before the reader starts
 	FullFile  bool
 	Codec     int // transport stage: 0 plain, 1 gzip, 2 bzip2, 3 xz, 4 zstd
 	ErrAt     int // -1 none
 	IOSeed    uint64
 }
 
-var codecNames = []string{"plain", "gzip", "bzip2", "xz", "zstd"}
+// codec 5 is gzip again, as `cat a.gz b.gz` or bgzip produce it: several members in one file
+var codecNames = []string{"plain", "gzip", "bzip2", "xz", "zstd", "gzip"}
 
 func (c readCfg) String() string {
-	return fmt.Sprintf("stage=%d B=%d workers=%d readmode=%d zero=%v eofdata=%v parsed=%v fullfile=%v codec=%s",
-		c.Stage, c.Chunk, c.Workers, c.ReadMode, c.ZeroReads, c.EOFData, c.Parsed, c.FullFile, codecNames[c.Codec])
+	return fmt.Sprintf("stage=%d B=%d workers=%d readmode=%d zero=%v eofdata=%v parsed=%v fullfile=%v codec=%s pool-churn=%d",
+		c.Stage, c.Chunk, c.Workers, c.ReadMode, c.ZeroReads, c.EOFData, c.Parsed, c.FullFile, codecNames[c.Codec], c.Churn)
 }
 
 type delivered struct {
@@ -495,6 +497,13 @@ func readFile(rc *RunCtx, format int, data []byte, cfg readCfg) *readResult {
 	}
 	knobs := map[string]int{"chunk": cfg.Chunk}
 	rr.res = rc.Sim(SimOpts{Knobs: knobs, YieldDensity: rc.Sched.Choose(3)}, func() {
+		// the pool as a filter, a previous file or another command stage leaves it: recycled
+		// buffers that were full of someone else's bytes
+		for i := 0; i < cfg.Churn; i++ {
+			b := obiseq.GetSlice([]int{200, 1024, 60, 500, 1000}[i%5])
+			b = append(b[:0], bytes.Repeat([]byte{'#'}, cap(b))...)
+			obiseq.RecycleSlice(&b)
+		}
 		switch cfg.Stage {
 		case 0:
 			ch := obiformats.ReadSeqFileChunk("sim", rd, make([]byte, cfg.Chunk), splitterOf(format))
@@ -756,8 +765,9 @@ func drawReadCfg(t *simrt.Tape, dataLen int, allowTransport bool) readCfg {
 	c.EOFData = t.Choose(3) == 2
 	c.Parsed = t.Choose(2) == 1
 	c.FullFile = t.Choose(6) == 5
+	c.Churn = []int{0, 0, 1, 5}[t.Choose(4)]
 	if c.Stage >= 2 {
-		c.Codec = t.Choose(5)
+		c.Codec = t.Choose(6)
 		// files, pipes and sockets never answer (0, nil); some decompressors do not accept it
 		c.ZeroReads = false
 	}
@@ -915,6 +925,13 @@ func compress(codec int, data []byte) []byte {
 	var w io.WriteCloser
 	var err error
 	switch codec {
+	case 5:
+		// three members (the middle one may be empty for tiny inputs)
+		a, b := len(data)/3, 2*len(data)/3
+		for _, part := range [][]byte{data[:a], data[a:b], data[b:]} {
+			buf.Write(compress(1, part))
+		}
+		return buf.Bytes()
 	case 1:
 		w = newGzipWriter(&buf)
 	case 2:
@@ -934,6 +951,20 @@ func compress(codec int, data []byte) []byte {
 	return buf.Bytes()
 }
 
+// memberBoundary tells whether cutting the several-member gzip image of text at k leaves a
+// complete gzip file (one or two whole members): such a cut is not a damaged input.
+func memberBoundary(text []byte, k int) bool {
+	a, b := len(text)/3, 2*len(text)/3
+	n := 0
+	for _, part := range [][]byte{text[:a], text[a:b]} {
+		n += len(compress(1, part))
+		if k == n {
+			return true
+		}
+	}
+	return false
+}
+
 // ---------------------------------------------------------------------------
 // C17 — truncated / corrupt compressed input and read errors are fatal
 // ---------------------------------------------------------------------------
@@ -948,7 +979,7 @@ var c17Images []c17Image
 
 func c17ImageList() []c17Image {
 	if c17Images == nil {
-		for codec := 1; codec <= 4; codec++ {
+		for codec := 1; codec <= 5; codec++ {
 			for f := 0; f < 2; f++ {
 				t := simrt.PrefixTape([]int32{int32(f), 3}, simrt.Mix(0xC17, uint64(codec*2+f)))
 				fc := genFile(t, 5, false)
@@ -1047,7 +1078,7 @@ func runC17(rc *RunCtx) {
 			maxRecs = 200
 		}
 		fc = genFile(t, maxRecs, t.Choose(4) == 3)
-		codec = t.Choose(5)
+		codec = t.Choose(6)
 		image = compress(codec, fc.Text)
 		kind = t.Choose(3)
 		if codec == 0 {
@@ -1077,6 +1108,11 @@ func runC17(rc *RunCtx) {
 		}
 		if k > n-1 {
 			k = n - 1
+		}
+		if codec == 5 && memberBoundary(fc.Text, k) {
+			rc.Probe("cut_between_gzip_members_is_a_valid_file")
+			rc.Out.Key = fmt.Sprintf("member-boundary/%d/%d", n, k)
+			return
 		}
 		data = image[:k]
 	case fkFlip:
